@@ -358,3 +358,187 @@ theorem sort_vals_unique (cont ids ids' : List Nat) (hp : ids'.Perm ids) (hs : (
 example : sortOK [30, 10, 20, 10] [0, 1, 2, 3, 1] [3, 1, 1, 2, 0] = true ∧ sortIds [30, 10, 20, 10] [0, 1, 2, 3, 1] = [1, 3, 1, 2, 0] := by decide
 
 end AITB.IndexMap
+
+namespace AITB.Trie
+
+/-! ### `FilterMap(TrieType, ItemsContainer)` -/
+
+/-- the constructor's test: accepted iff the number of stored entries equals the number of items -/
+theorem ofTrie_spec {t : T} {es : Spec} (h : RI t es) (hF : t.F ≠ []) (items : List Nat) :
+    FM.ofTrie false t items = some (if es.length = items.length then some ⟨t, items⟩ else none) := by
+  simp only [FM.ofTrie, size_spec h hF, Option.map_some]
+  by_cases he : es.length = items.length
+  · simp [he]
+  · simp [he]
+
+/-- **documented use** — "copy two FilterMap of different types which share the factorization": the trie of a FilterMap
+    with as many new items is accepted and is again a FilterMap in which every filter result stays inside the container -/
+theorem FMInv_copy {m : FM} {es : Spec} (h : FMInv m es) (hF : m.trie.F ≠ []) (items' : List Nat) (hl : items'.length = m.items.length) :
+    FM.ofTrie false m.trie items' = some (some ⟨m.trie, items'⟩) ∧ FMInv ⟨m.trie, items'⟩ es := by
+  have hlen : es.length = m.items.length := by
+    have := congrArg List.length h.2.1
+    simpa [specIds] using this
+  refine ⟨?_, h.1, by rw [hl]; exact h.2.1, by rw [hl]; exact h.2.2⟩
+  rw [ofTrie_spec h.1 hF, if_pos (by rw [hl]; exact hlen)]
+
+/-- under the FilterMap invariant every id a filter hands out addresses the container -/
+theorem filterChecked_defined {m : FM} {es : Spec} (h : FMInv m es) (fb : Bool) (q : PF) (hq : ValidQ m.trie.F q) (hne : q ≠ []) :
+    ∃ vs, m.filterChecked fb q = some vs ∧ ∀ v ∈ vs, v.isSome = true := by
+  obtain ⟨_, hlt, _⟩ := filtermap_filter_spec h fb q hq hne
+  refine ⟨(specFilter es q).map (fun id => m.items[id]?), by simp only [FM.filterChecked, filter_spec h.1 fb q hq hne, Option.map_some], ?_⟩
+  intro v hv
+  obtain ⟨id, hid, rfl⟩ := List.mem_map.1 hv
+  have := hlt id hid
+  simp [this]
+
+/-- the trie a user kept after retiring rule 0 of two: `Trie({2,2})`, two inserts, `erase(0)` -/
+def gapTrie : T := ⟨[2, 2], 2, [[[], [1], []], [[], [], [1]]]⟩
+
+theorem gapTrie_reachable :
+    (T.mk? [2, 2]).map (fun t => ((t.insert [(0, 1)]).1.insert [(0, 1)]).1.erase 0) = some gapTrie := rfl
+
+theorem gapTrie_size : gapTrie.size false = some 1 := rfl
+
+theorem gapTrie_RI : RI gapTrie [(1, [(0, 1)])] := by
+  have h0 : RI (⟨[2, 2], 0, [[[], [], []], [[], [], []]]⟩ : T) [] := RI_mk (F := [2, 2]) rfl
+  have v : ValidPF [2, 2] [(0, 1)] := by simp [ValidPF, KeysAsc]
+  have h1 := RI_insert h0 v
+  have h2 := RI_insert h1 v
+  exact RI_erase h2 0
+
+/-- **the size test is the wrong test**: a trie with an erased entry and a container of the *same size* is accepted, and the
+    very next filter hands out an id outside the container (`items_[1]` of a 1-element vector: out-of-bounds read).
+    No container length makes such a trie usable: any other length is rejected. -/
+theorem ofTrie_gap_counterexample :
+    (FM.ofTrie false gapTrie [42]).map (fun r => r.map (fun m => m.items)) = some (some [42]) ∧
+      (⟨gapTrie, [42]⟩ : FM).filterChecked false [(0, 1)] = some [none] ∧
+      ∀ n, n ≠ 1 → (FM.ofTrie false gapTrie (List.replicate n 42)).map (fun r => r.isSome) = some false := by
+  refine ⟨rfl, ?_, ?_⟩
+  · have hq : ValidQ gapTrie.F [(0, 1)] := by intro kv hkv; simp at hkv; subst hkv; decide
+    simp only [FM.filterChecked, filter_spec gapTrie_RI false [(0, 1)] hq (by simp), Option.map_some]
+    decide
+  intro n hn
+  have hne : (1 != n) = true := by simp; omega
+  simp only [FM.ofTrie, gapTrie_size, Option.map_some, List.length_replicate, hne, if_true, Option.isSome_none]
+
+/-! ### ids are never reused -/
+
+/-- `insert` returns `counter_`, which no stored entry carries (so erase-then-reinsert gets a new id), and moves it on by one -/
+theorem insert_id_fresh {t : T} {es : Spec} (h : RI t es) (pf : PF) :
+    (t.insert pf).2 = t.counter ∧ (t.insert pf).1.counter = t.counter + 1 ∧ ∀ e, (t.counter, e) ∉ es := by
+  refine ⟨rfl, rfl, fun e he => ?_⟩
+  have := h.lt _ _ he
+  omega
+
+def isIns : Op → Bool
+  | .ins _ => true
+  | _ => false
+
+/-- along any history the next id is the number of inserts so far: the k-th insert returns k-1 whatever was erased in between -/
+theorem specRun_counter (s : Spec × Nat) (ops : List Op) : (specRun s ops).2 = s.2 + (ops.filter isIns).length := by
+  induction ops generalizing s with
+  | nil => simp [specRun]
+  | cons op ops ih =>
+    have : specRun s (op :: ops) = specRun (specStep s op) ops := rfl
+    rw [this, ih]
+    cases op <;> simp [specStep, isIns, List.filter_cons] <;> omega
+
+/-- **no id is handed out twice**: in every history within the preconditions the id the model's `insert` returns after the
+    history is the number of earlier inserts, larger than every id stored (or ever stored) before -/
+theorem ids_never_reused (F : List Nat) (t0 : T) (hmk : T.mk? F = some t0) (ops : List Op) (hok : HistOK F ([], 0) ops) (pf : PF) :
+    ∃ t, run true t0 ops = some t ∧ (t.insert pf).2 = (ops.filter isIns).length ∧
+      ∀ id e, (id, e) ∈ (specRun ([], 0) ops).1 → id < (t.insert pf).2 := by
+  have h0 : RI t0 [] := RI_mk hmk
+  have hF0 : t0.F = F ∧ t0.counter = 0 := by
+    unfold T.mk? at hmk
+    split at hmk
+    · cases hmk
+    · cases hmk; exact ⟨rfl, rfl⟩
+  obtain ⟨t, hr, hRI, _, hc⟩ := run_RI F ops t0 [] h0 hF0.1 (by rw [hF0.2]; exact hok)
+  rw [hF0.2] at hRI hc
+  refine ⟨t, hr, ?_, fun id e he => hRI.lt id e he⟩
+  show t.counter = _
+  rw [hc, specRun_counter]; simp
+
+/-! ### refine chains -/
+
+theorem compatB_append (e q1 q2 : PF) : compatB e (q1 ++ q2) = (compatB e q1 && compatB e q2) := by
+  simp [compatB, List.all_append]
+
+/-- refining a filter result by a second query gives the filter of the joined query (in any state reachable by a history):
+    `refine(filter(q1), q2) = filter(q1 ++ q2)` -/
+theorem refine_chain {t : T} {es : Spec} (h : RI t es) (q1 q2 : PF) (hq2 : ValidQ t.F q2) :
+    t.refine (specFilter es q1) q2 = specFilter es (q1 ++ q2) := by
+  rw [refine_spec h _ (specFilter_sorted h q1) q2 hq2]
+  unfold specRefine
+  cases q2 with
+  | nil => simp
+  | cons kv q2' =>
+    simp only [List.isEmpty_cons, Bool.false_eq_true, if_false]
+    unfold specFilter
+    rw [List.filter_map, List.filter_filter]
+    congr 1
+    apply List.filter_congr
+    rintro ⟨id, e⟩ he
+    simp only [Function.comp, compatB_append]
+    by_cases hc1 : compatB e q1 = true
+    · simp only [hc1, Bool.and_true, Bool.true_and]
+      by_cases hc2 : compatB e (kv :: q2') = true
+      · rw [hc2]
+        simp only [List.contains_eq_mem, decide_eq_true_eq]
+        exact (mem_specFilter es _ id).2 ⟨e, he, hc2⟩
+      · have hc2' : compatB e (kv :: q2') = false := by simpa using hc2
+        rw [hc2']
+        simp only [List.contains_eq_mem, decide_eq_false_iff_not]
+        intro hm
+        obtain ⟨e', he', hc'⟩ := (mem_specFilter es _ id).1 hm
+        rw [h.unique he he'] at hc2
+        exact hc2 hc'
+    · have : compatB e q1 = false := by simpa using hc1
+      simp [this]
+
+/-- and a chain of two refinements of any ascending id list is one refinement by the joined query -/
+theorem refine_refine {t : T} {es : Spec} (h : RI t es) (ids : List Nat) (hs : ids.Pairwise (· < ·)) (q1 q2 : PF)
+    (hq1 : ValidQ t.F q1) (hq2 : ValidQ t.F q2) (hne1 : q1 ≠ []) (hne2 : q2 ≠ []) :
+    t.refine (t.refine ids q1) q2 = t.refine ids (q1 ++ q2) := by
+  have hq12 : ValidQ t.F (q1 ++ q2) := by
+    intro kv hkv
+    rcases List.mem_append.1 hkv with hkv | hkv
+    · exact hq1 kv hkv
+    · exact hq2 kv hkv
+  rw [refine_spec h ids hs q1 hq1]
+  have hs1 : (specRefine es ids q1).Pairwise (· < ·) := by
+    unfold specRefine; split
+    · exact hs
+    · exact hs.sublist List.filter_sublist
+  rw [refine_spec h _ hs1 q2 hq2, refine_spec h ids hs _ hq12]
+  unfold specRefine
+  have e1 : q1.isEmpty = false := by cases q1 with | nil => exact absurd rfl hne1 | cons _ _ => rfl
+  have e2 : q2.isEmpty = false := by cases q2 with | nil => exact absurd rfl hne2 | cons _ _ => rfl
+  have e12 : (q1 ++ q2).isEmpty = false := by cases q1 with | nil => exact absurd rfl hne1 | cons _ _ => rfl
+  simp only [e1, e2, e12, Bool.false_eq_true, if_false]
+  rw [List.filter_filter]
+  apply List.filter_congr
+  intro id _
+  simp only [List.contains_eq_mem]
+  have key : id ∈ specFilter es (q1 ++ q2) ↔ id ∈ specFilter es q1 ∧ id ∈ specFilter es q2 := by
+    simp only [mem_specFilter, compatB_append, Bool.and_eq_true]
+    constructor
+    · rintro ⟨e, he, h1, h2⟩; exact ⟨⟨e, he, h1⟩, ⟨e, he, h2⟩⟩
+    · rintro ⟨⟨e, he, h1⟩, ⟨e', he', h2⟩⟩
+      rw [← h.unique he he'] at h2
+      exact ⟨e, he, h1, h2⟩
+  by_cases hm : id ∈ specFilter es (q1 ++ q2)
+  · have := key.1 hm; simp [hm, this.1, this.2]
+  · have : ¬ (id ∈ specFilter es q1 ∧ id ∈ specFilter es q2) := fun hh => hm (key.2 hh)
+    simp only [hm, decide_false]
+    by_cases h1 : id ∈ specFilter es q1
+    · have h2 : id ∉ specFilter es q2 := fun hh => this ⟨h1, hh⟩
+      simp [h1, h2]
+    · simp [h1]
+
+example : ∃ t es, RI t es ∧ ValidQ t.F [(1, 0)] ∧ specFilter es ([(0, 1)] ++ [(1, 0)]) = [1] := by
+  refine ⟨_, _, gapTrie_RI, ?_, by decide⟩
+  intro kv hkv; simp at hkv; subst hkv; decide
+
+end AITB.Trie
